@@ -129,7 +129,7 @@ OverTime(op, s, t, w) == Def(op, Pts({s}, Window(t, w)))
 
 (* topk / bottomk of this engine select whole SERIES by a weight over the   *)
 (* visible range (engine.go weight): sum of v^2 times the step, or, when all *)
-(* series of the group is non-decreasing, the last value.  Ties are broken  *)
+(* series of the group are non-decreasing, the last value.  Ties are broken *)
 (* arbitrarily, so the specification is relational: the admissible results. *)
 NonEmpty(G) == {s \in G : DOMAIN data[s] # {}}
 NonDec(s)   == \A i, j \in DOMAIN data[s] : i < j => data[s][i] <= data[s][j]
